@@ -271,7 +271,7 @@ PROPERTIES.update({
             ss("pp-real", None, ["panic"], "ss/pp-real"),
             ss("pairs", None, ["panic"], "ss/pairs"),
             ss("equal", None, ["panic"], "ss/equal"),
-            it("bytes", ["panic", "wrong_result"], "it/bytes", tiers=("thorough",)),
+            it("bytes", ["panic", "wrong_result"], "it/bytes"),
             it("subs", ["panic"], "it/subs"),
             it("finder", ["panic"], "it/finder"),
         ],
@@ -796,9 +796,11 @@ def race_handler(job, tier, seed, workdir, drv):
     exe = drv.bin_path(spec)
     t0 = time.time()
     violations, calls = [], 0
-    runs = 12 if tier == "quick" else 60
+    runs = 40 if tier == "quick" else 400
     for i in range(runs):
-        p = subprocess.run([exe, "--threads", str(2 + i % 7), "--rounds", "3"], stdout=subprocess.PIPE, stderr=subprocess.PIPE, text=True, timeout=600)
+        # odd runs are COLD: a fresh process in which every thread's first
+        # constructions and calls happen concurrently (no warm-up)
+        p = subprocess.run([exe, "--threads", str(2 + i % 7), "--rounds", "3"] + (["--cold"] if i % 2 else []), stdout=subprocess.PIPE, stderr=subprocess.PIPE, text=True, timeout=600)
         m = re.search(r"RACE-HARNESS threads=(\d+) rounds=\d+ calls=(\d+) mismatches=(\d+)", p.stdout)
         if p.returncode < 0:
             violations.append({"class": "crash", "what": "[crash] the race harness died with signal %d on %d real threads" % (-p.returncode, 2 + i % 7), "replay_argv": None, "detail": {"class": "crash"}})
@@ -835,7 +837,7 @@ def race_handler(job, tier, seed, workdir, drv):
            "histogram": {"helgrind reports (all)": len(reports), "helgrind reports with a frame in the crate and no atomic access": len(in_crate)},
            "samples": [{"harness": "2..8 real threads; every dispatched routine on 14 lengths, 10 needles x 10 haystack lengths through the free functions, fresh and SHARED Finder/FinderRev, is_equal/is_prefix/is_suffix", "runs": runs}],
            "violation_count": len(violations), "violations": violations[:8], "machinery_errors": [], "caps_hit": [],
-           "extra": {"exhaustive": True, "nontrivial_rule": "every call is compared with the naive reference", "bounds": {"native_runs": runs, "threads": "2..8", "helgrind_runs": 1},
+           "extra": {"exhaustive": True, "nontrivial_rule": "every call is compared with the naive reference", "bounds": {"native_runs": runs, "of_which_cold_processes": runs // 2, "threads": "2..8", "helgrind_runs": 1},
                      "note": "free-running complement of the loom exploration: schedules are NOT enumerated here; helgrind's happens-before analysis flags conflicting unsynchronised accesses independently of the schedule that happened to run"}}
     for v in violations:
         res["histogram"]["violation/" + v["class"]] = res["histogram"].get("violation/" + v["class"], 0) + 1
@@ -847,6 +849,23 @@ def race_handler(job, tier, seed, workdir, drv):
 PROPERTIES["C15"]["jobs"] += [{"name": "race harness (real threads; helgrind)", "handler": race_handler, "classes": None}]
 PROPERTIES["C15"]["explanation"] += " Complement for what has no scheduling point: the same kind of bodies (every dispatched routine, free functions with different needles, one shared Finder/FinderRev) run on 2..8 REAL threads, natively (every answer compared with the reference) and once under valgrind's helgrind; a conflicting pair of unsynchronised, non-atomic accesses with a frame inside the crate (a `static mut` scratch buffer, a cache behind `unsafe impl Sync`) is a violation. The dispatch cells are warmed first - their racy first calls are loom's part."
 PROPERTIES["C15"]["assumptions"] = [a for a in PROPERTIES["C15"]["assumptions"] if "race detector" not in a] + ["the helgrind pass is free-running (its schedules are not enumerated); it is a monitor for unsynchronised accesses that the loom exploration cannot see, not the deciding exploration"]
+
+
+# allocation probe inside the history engines: next()/next_back() in every
+# reachable iterator state, clone() of a borrowed substring iterator at every
+# point (incl. after the prefilter has gone inert)
+PROPERTIES["C17"]["jobs"] += [
+    it("finder", ["alloc"], "it/finder (allocation probe on next/clone in every reachable state)"),
+    it("subs", ["alloc"], "it/subs (allocation probe on every next)"),
+    it("bytes", ["alloc"], "it/bytes (allocation probe on every next/next_back)"),
+]
+PROPERTIES["C17"]["explanation"] += " The history engines carry the probe too: every next()/next_back() in every reachable state of the byte and substring iterators, and clone() of a BORROWED find_iter/rfind_iter at every point of an iteration (also after the adaptive prefilter has gone inert) must not allocate."
+
+
+# huge haystacks at page-relative start addresses (after seeded change R7A)
+for pid, op in (("C01", "find"), ("C02", "rfind"), ("C07", "count")):
+    PROPERTIES[pid]["jobs"] += [bs("huge", op, RESULT, name="bs/huge/%s (1..2 MiB at page-aligned and page-straddling starts)" % op)]
+    PROPERTIES[pid]["explanation"] += " `huge`: haystacks of 2^20-1, 2^20, 2^20+4097, 2^21+33 bytes (thorough: also 4 and 16 MiB) starting 0, 1, 2048, 4064, 4095 bytes past a page boundary, with no match, one match at the first / last bytes and around the first and last page boundary, and pairs."
 
 HOOK_COMMITS = ["ffdf165", "556bbde", "0f24165", "8fa21ee"]
 
